@@ -197,6 +197,33 @@ func init() {
 				}
 				r.Extra["L_completed"] = L
 			}
+			// reachable, non-clean shapes (overlapping parts, sites inside joins, inner partial markers), 2 parts
+			wideL := []int{2, 3}
+			if r.Tier == "thorough" {
+				wideL = []int{2, 3, 4}
+			}
+			for _, L := range wideL {
+				if !complete {
+					break
+				}
+				locs := locdom.All(L, locdom.Opts{MaxParts: 2, Overlap: true, Sites: true, InnerFlags: true})
+				r.States.Add(int64(len(locs)))
+				per := (L + 1) * 3 * 2
+				done := r.ParallelFor(len(locs)*per, func(idx int) {
+					loc := locs[idx/per]
+					x := idx % per
+					op := "insert"
+					if x%2 == 1 {
+						op = "embed"
+					}
+					x /= 2
+					n := x%3 + 1
+					i := x / 3
+					eval(c02Case{Op: op, L: L, Locs: []string{locdom.Encode(loc)}, I: i, N: n}, true)
+				})
+				complete = complete && done
+				r.Extra["wide_domain_L_completed"] = L
+			}
 			// guest features: every contiguous guest location (and complement) for n=1..3,
 			// against a small host table, every i.
 			for n := 1; n <= 3 && complete; n++ {
